@@ -382,7 +382,7 @@ class RunStats:
         self.probes[name] = self.probes.get(name, 0) + 1
 
 
-def verify_history(plan, resp, baselines, check_seq=True):
+def verify_history(plan, resp, baselines, check_seq=True, check_parse=False):
     """Walk the recorded events, mirror the handle tables, compare with
     baselines.  Returns (Violation or None, RunStats)."""
     st = RunStats()
@@ -446,10 +446,12 @@ def verify_history(plan, resp, baselines, check_seq=True):
                 st.parses_rej += 1
                 if st.execs > 0:
                     rej_between = True
-            if check_seq:
+            if check_seq or check_parse:
                 b = baselines.parse(p, pvoc)
                 if b.ok:
-                    if parse_sig(ev) != b.parse:
+                    # without the sequence oracle (C14) only the verdict counts:
+                    # compiled or rejected is a function of the bytes
+                    if (parse_sig(ev) != b.parse) if check_seq else (ev.outcome != b.parse[0]):
                         return bad("parse-stable", ev, "fresh: %s ; here: %s"
                                    % (show_sig(b.parse), show_sig(parse_sig(ev)))), st
                 else:
